@@ -2,11 +2,62 @@
     The theorems are one-step lemmas of the flat statement machine that hold for EVERY machine state m: the
     successor depends on the code around the program counter and on the value of the condition only, so neither the
     context of the chain nor any earlier conditional, return or break can influence which branch runs (the machine
-    has no field in which they could leave a flag).  Composing the steps over a whole chain needs the structured
-    refinement theorem R of DESIGN.md (not proved); that composition is covered by the chains stream. *)
+    has no field in which they could leave a flag).  Proofs/ChainWalk.v composes them over a whole chain of any length
+    (C02_chain_selects_first_true, C02_all_false_reaches_else, C02_all_false_without_else_continues_after_chain): the
+    conditions are evaluated in order, each from the state its predecessor's evaluation left, the walk stops at the first
+    true one and enters exactly its block; with C02_after_a_branch_the_rest_is_skipped (the block's normal end falls on the
+    chain's next else, which jumps behind the chain) this is the property for every chain, context and history.  Still
+    stream-only: that the selected block's own statements, when they end normally, arrive at that else (the sequencing of
+    arbitrary statements inside a block; structured semantics R of DESIGN.md). *)
 From Pakhi Require Import Base Float64 Syntax Tables Lexer Interp.
-From Pakhi.Proofs Require Import Control.
+From Pakhi.Proofs Require Import Control ChainWalk.
 Local Open Scope nat_scope.
+
+(* a whole chain: conditions c_1 .. c_k false, c_{k+1} true -- k+1 statements later the machine is at the opening brace of
+   branch k+1, in the state the evaluation of c_{k+1} left; no other condition was evaluated, no block entered *)
+Theorem C02_chain_selects_first_true : forall code fuel fs b post m m' m1 pre,
+  code = pre ++ false_prefix fs ++ br_code b ++ post -> Forall (fun be => balanced (br_body (fst be))) fs ->
+  m_pc m = length pre -> falses code fuel fs m m' ->
+  eval code fuel (br_c b) m' = Ok (VBool true, m1) ->
+  steps code fuel (S (length fs)) m = Ok (next m1) /\
+  (m_pc m1 = m_pc m' -> m_pc (next m1) = length pre + length (false_prefix fs) + 1 /\
+                        stmt_at code (m_pc (next m1)) = Some (FBlockStart (br_bp b))).
+Proof. exact chain_selects_first_true. Qed.
+Print Assumptions C02_chain_selects_first_true.
+
+(* every condition false and a final else: the machine stands at the else block *)
+Theorem C02_all_false_reaches_else : forall code fuel fs bp body bq post m m' pre,
+  code = pre ++ false_prefix fs ++ FBlockStart bp :: body ++ FBlockEnd bq :: post ->
+  Forall (fun be => balanced (br_body (fst be))) fs -> m_pc m = length pre -> falses code fuel fs m m' ->
+  steps code fuel (length fs) m = Ok m' /\ stmt_at code (m_pc m') = Some (FBlockStart bp).
+Proof. exact chain_all_false_reaches_else. Qed.
+Print Assumptions C02_all_false_reaches_else.
+
+(* every condition false and no else: nothing runs, execution continues with the statement after the whole chain *)
+Theorem C02_all_false_without_else_continues_after_chain : forall code fuel fs b post m m' m1 pre,
+  code = pre ++ false_prefix fs ++ br_code b ++ post -> not_else post ->
+  Forall (fun be => balanced (br_body (fst be))) fs -> balanced (br_body b) ->
+  m_pc m = length pre -> falses code fuel fs m m' ->
+  eval code fuel (br_c b) m' = Ok (VBool false, m1) -> m_pc m1 = m_pc m' ->
+  steps code fuel (S (length fs)) m = Ok (set_pc m1 (length pre + length (false_prefix fs) + length (br_code b))).
+Proof. exact chain_all_false_no_else. Qed.
+Print Assumptions C02_all_false_without_else_continues_after_chain.
+
+(* non-vacuity: `যদি মিথ্যা {দেখাও ..} অথবা যদি সত্য {} অথবা {}` from the initial machine *)
+Example C02_chain_walk_instance :
+  let p := mkPos 1 [] in
+  let b1 := mkBr (EBool false p) p p [FPrint (EBool true p) p] p in
+  let b2 := mkBr (EBool true p) p p [] p in
+  let code := br_code b1 ++ FElse p :: br_code b2 ++ [FElse p; FBlockStart p; FBlockEnd p; FEOS p] in
+  let m0 := init_machine [] (mkWorld [] [] []) in
+  exists m', falses code 3 [(b1, p)] m0 m' /\ steps code 3 2 m0 = Ok (next m') /\ m_pc (next m') = 6 /\ m_out (next m') = [].
+Proof.
+  cbv zeta. eexists. split; [|split; [|split]].
+  - eapply f_cons; [reflexivity|reflexivity|apply f_nil].
+  - vm_compute. reflexivity.
+  - reflexivity.
+  - reflexivity.
+Qed.
 
 (* skipping a block lands after the matching close, whatever is nested in it *)
 Theorem C02_skip_block_lands_after : forall code pre p body q post m,
